@@ -240,10 +240,58 @@ def permission_updates(ctx):
     return out
 
 
+def key_revocation(ctx):
+    """REVOKE KEY: the record that is persisted and the one that is cached are both inactive"""
+    b = Builder(ctx, "auth-user_ops-revoke_key-{closure#0}.", "user_ops::revoke_key", {})
+    E = b.E
+    r = b.mk("B-4k", "revoke_key: the user record written to the auth store (store_user_in_db) and the one put into the user cache "
+                     "both have `active` = false, and the store write happens (with `?`) before the cache is updated - a revoked "
+                     "key stays revoked after the users are reloaded from the store")
+    out = [b.results["B-4k"]]
+    if not r:
+        return out
+    st = oblig.events(E, r"store_user_in_db$")
+    ca = oblig.events(E, r"UserCache::insert$")
+    if not oblig.need_anchor(r, st, "store_user_in_db") or not oblig.need_anchor(r, ca, "UserCache::insert"):
+        return out
+    r.nontrivial = True
+    for ev in st + ca:
+        r.anchors.append(f"{ev.short}@bb{ev.bb}")
+        rec = None
+        for a in ev.args:
+            v = a
+            if isinstance(v, sym.Ref):
+                v, _ = E.read_place(ev.env, v.place)
+            if isinstance(v, sym.Agg) and v.names and "active" in v.names:
+                rec = v
+        if rec is None:
+            r.status = "inconclusive"
+            r.notes.append(f"user record passed to {ev.short} not resolved to a struct value")
+            return out
+        act = rec.field("active")
+        if not (sym.is_term(act) and z3.is_false(z3.simplify(act))):
+            r.status = "violated"
+            r.witness = {"what": f"the record handed to {ev.short} is not inactive (active = {sym.describe(act)}): "
+                                 + ("the revocation is lost when users are reloaded from the store" if ev in st else "the cached key stays usable"),
+                         "span": f"{ev.span[0]}:{ev.span[1]}" if ev.span else None, "call": ev.func[:100], "path": [], "model": {}}
+            return out
+    # the cache is updated only after the store write succeeded
+    tries = [z3.BitVec(f"disc(try({sym.describe(e.args[0])}))", 64) == 0 for e in E.events
+             if re.search(r"Try>::branch$", e.func) and e.args and "store_user_in_db" in sym.describe(e.args[0])]
+    for ev in ca:
+        res, model = ctx.q.check(ev.reach, z3.Not(z3.Or(tries)) if tries else z3.BoolVal(True), domain=E.domain)
+        r.queries += 1
+        if res == z3.sat:
+            oblig.violated(r, E, ctx.q, ev, model, "the user cache is updated although the store write failed / was not awaited with `?`")
+            return out
+    return out
+
+
 def obligations(ctx):
     out = []
     out += summaries(ctx)
     out += permission_updates(ctx)
+    out += key_revocation(ctx)
     for (oid, needle, label, perm, eff, opt) in HANDLERS:
         out += gate(ctx, oid, needle, label, perm, eff, opt)
     out += dispatcher(ctx)
